@@ -725,6 +725,39 @@ def _compare(rec, m):
     return None
 
 
+def memonly_records(rng, n):
+    """bypass_memory_only_ops on real Reshape / Squeeze / ExpandDims operations: (request, real fate)"""
+    from ethosu.vela import graph_optimiser_util as G
+    from ethosu.vela.data_type import DataType
+    from ethosu.vela.operation import Op, Operation
+    from ethosu.vela.tensor import Tensor
+    from ethosu.vela.test import testutil
+
+    out = []
+    for i in range(n):
+        ncons = rng.choice([1, 1, 2, 3])
+        producer = rng.choice(["npu", "cpu", "input", "const"])
+        ifm = Tensor([1, 4, 4, 8], DataType.int8, f"m{i}_ifm")
+        ofm = Tensor([1, 8, 2, 8], DataType.int8, f"m{i}_ofm")
+        pop = Operation({"npu": Op.Abs, "cpu": Op.Custom, "input": Op.Placeholder, "const": Op.Const}[producer], f"m{i}_p")
+        pop.run_on_npu = producer == "npu"
+        pop.set_output_tensor(ifm)
+        op = testutil.create_op(rng.choice([Op.Reshape, Op.Squeeze, Op.ExpandDims]), [ifm], ofm, set_ifm_ofm_shapes=False)
+        op.run_on_npu = True
+        ifm.consumer_list = [op] + [Operation(Op.Relu, f"m{i}_c{j}") for j in range(ncons - 1)]
+        cons = Operation(Op.Abs, f"m{i}_next")
+        cons.add_input_tensor(ofm)
+        G.bypass_memory_only_ops(op, None, None)
+        if op.type == Op.Memcpy:
+            real = "memcpy"
+        elif ofm.ops == [pop] and pop.outputs == [ofm]:
+            real = "bypass"
+        else:
+            real = "?"
+        out.append((f"memonly {ncons} {int(not pop.run_on_npu)}", real, producer))
+    return out
+
+
 def _victims(sm):
     v = set()
     for tok in sm.group(2).split():
@@ -781,6 +814,14 @@ def stage(ck, outs, prefix="inplace_", stub=True, compiled=True):
     stub_owner = {"idx": -1, "profile": "stub", "seed": ck.seed, "opts": [], "desc": "generated stub graph (no network)"}
     inst, owners = [], []
     if stub:
+        mrecs = memonly_records(ck.rng, 400)
+        for (line, real, producer), ans in zip(mrecs, ck.model([m[0] for m in mrecs], parallel=False)):
+            ck.count(prefix + "memonly_" + real + "_" + producer)
+            if ans != real:
+                ck.violation(f"bypass_memory_only_ops and Model/InPlace.memOnlyFate disagree: `{line}` ({producer}) model {ans} "
+                             f"real {real}", {"request": line, "producer": producer, "real": real, "model": ans,
+                                              "correspondence": "memOnlyFate = graph_optimiser_util.bypass_memory_only_ops"},
+                             found_input=False)
         srecs, skipped = stub_records(ck.rng, nstub, rules)
         ck.count(prefix + "stub_skipped", skipped)
         for r in srecs:
@@ -818,6 +859,11 @@ def stage(ck, outs, prefix="inplace_", stub=True, compiled=True):
             bad = _compare(r, m)
             stats["wf"] += m["wf"] == "1"
             stats["multiple"] += m["multiple"] == "1"
+            if not stub and (m["wf"] != "1" or m["multiple"] == "1"):
+                # the theorems of Props/C12InPlace do not speak about this compiled graph (the Spec still judges it)
+                ck.count(prefix + "compiled_outside_theorem_hypotheses")
+                ck.notes.append(f"in-place: graph of network {o['idx']} {o['profile']} has wf={m['wf']} multiple={m['multiple']}: "
+                                "outside the hypotheses of fuse_safe (judged by the Spec only)")
             nclones = sum(1 for k in r["post"]["x"] if ">" in k)
             stats["boundary_clones"] += nclones
             stats["protected_clones"] += sum(1 for k, v in r["post"]["x"].items() if ">" in k and v[0])
